@@ -242,7 +242,7 @@ def nontrivial(M, scn):
 
 
 def codec_family(prop, tier, seed, planset, level="model_checking", san="plain", rule="", modules=(1, 2, 3), depth=None, exact=True,
-                 valcap=0, maxfail=6, invariants=("RoundTrip",), leafcap=0, dense=False, big=False, res=None, finish_it=True):
+                 valcap=0, maxfail=6, invariants=("RoundTrip",), leafcap=0, dense=False, big=False, res=None, finish_it=True, flags=()):
     t0 = time.time()
     res = res or Result(prop)
     known = lib.load_findings(prop)
@@ -258,9 +258,9 @@ def codec_family(prop, tier, seed, planset, level="model_checking", san="plain",
         M = Module(mod)
         for s in scns:
             res.distinct.add(nontrivial(M, s))
-        run_sessions(res, M, mod, scns, "Trace_Codec", san=san, known=known, invariants=invariants,
+        run_sessions(res, M, mod, scns, "Trace_Codec", san=san, known=known, invariants=invariants, flags=flags,
                      constants=("Mod <- TheMod", "ByteExact = %s" % ("TRUE" if exact else "FALSE")))
-        log("%s module %s: %d sessions, %d violations so far, %.0fs" % (prop, M.name, len(scns), len(res.violations), time.time() - t0))
+        log("%s module %s %s%s: %d sessions, %d violations so far, %.0fs" % (prop, M.name, planset, " " + " ".join(flags) if flags else "", len(scns), len(res.violations), time.time() - t0))
     if not finish_it:
         return res
     return finish(res, tier, seed, level, t0, rule, ASSUME_CODEC,
@@ -306,6 +306,27 @@ def check_C04(tier, seed):
     return codec_family("C04", tier, seed, "mutations", exact=False, san="asan", valcap=2 if tier == "quick" else 6,
                         leafcap=3 if tier == "quick" else 0, dense=(tier != "quick"), level="exploration",
                         rule="per (type, value, syntax in DER/OER/UPER/CXER): every truncation, byte substitutions {00,01,7f,80,81,ff,+1,-1,+80} at every position (first 6 / last 4 of long encodings), duplicated tail, dropped byte, appended ff*4; decode (rc in {OK,WMORE,FAIL}, consumed <= size), print, validate, re-encode, decode the re-encoding (must compare equal), free; ASan+UBSan build: any report is a Crash event that no spec action explains")
+
+
+def check_C18(tier, seed):
+    """open types governed by an object set: module VO of the universe (INTEGER- and OBJECT IDENTIFIER-identified sets,
+    1 and 4 rows, extensible or not, built-in / defined / constructed / nested-frame row types, frames nested in a SEQUENCE
+    and a SEQUENCE OF), under ASan+UBSan with the allocation ledger"""
+    t0 = time.time()
+    res = Result("C18")
+    quick = tier == "quick"
+    runs = [("rt", False, ()), ("variants", True, ()), ("split", True, ()), ("ioc", False, ()), ("mutations", False, ()), ("life", False, ()),
+            ("rt", False, ("-fwide-types",)), ("ioc", False, ("-fwide-types",)), ("variants", True, ("-findirect-choice", "-fcompound-names"))]
+    if not quick:
+        runs += [("chunks", True, ()), ("mutations", False, ("-fwide-types",)), ("ioc", False, ("-findirect-choice", "-fcompound-names")),
+                 ("life", False, ("-fwide-types",))]
+    for planset, exact, flags in runs:
+        codec_family("C18", tier, seed, planset, san="asan", modules=(9,) if flags else (9, 10), exact=exact, flags=flags, res=res, finish_it=False,
+                     valcap=(3 if quick else 8) if planset in ("mutations", "life") else 0, leafcap=3 if quick and planset == "mutations" else 0,
+                     maxfail=6 if quick else 16, dense=not quick and planset == "mutations")
+    return finish(res, tier, seed, "model_checking", t0,
+                  "module VO (spec/Universe.tla): frames SEQUENCE { id CLASS.&id({Set}), val CLASS.&Type({Set}{@id}) } over four object sets; for every frame type, every row and boundary values of the row type: round trip per syntax; decoding of the reference encodings (DER, 16 BER styles, UPER, OER, XER layouts) must select exactly the row paired with the identifier (value equality includes the selected row); every 2-chunk split; identifier replaced by one without a row (must not be accepted) or by another row's (if accepted, the value must be of the type paired with the decoded identifier: Asn1Types!IocConsistent), in DER / padded BER / UPER / OER / XER, then print + free, or reset + decode a valid encoding into the same structure; byte mutations and allocation-failure histories; ASan+UBSan build with the allocation ledger: every crash, sanitizer report or unreleased block is an event no spec action explains; repeated with -fwide-types and -findirect-choice -fcompound-names",
+                  ASSUME_CODEC + ["the object-set universe is fixed (4 sets); generated class/object-set modules beyond it are not enumerated"])
 
 
 OPTION_SETS_QUICK = [["-fwide-types"], ["-fcompound-names"], ["-findirect-choice"], ["-fno-include-deps"], ["-fincludes-quoted"],
@@ -1320,7 +1341,7 @@ def check_C10(tier, seed):
 
 
 CHECKS = {"C01": check_C01, "C02": check_C02, "C03": check_C03, "C04": check_C04, "C05": check_C05, "C06": check_C06, "C07": check_C07, "C08": check_C08, "C14": check_C14,
-          "C09": check_C09, "C10": check_C10, "C11": check_C11, "C12": check_C12, "C13": check_C13, "C15": check_C15, "C16": check_C16, "C19": check_C19, "C17": check_C17, "C20": check_C20}
+          "C09": check_C09, "C10": check_C10, "C11": check_C11, "C12": check_C12, "C13": check_C13, "C15": check_C15, "C16": check_C16, "C19": check_C19, "C17": check_C17, "C20": check_C20, "C18": check_C18}
 
 
 def replay(prop, path):
